@@ -97,6 +97,10 @@ class ContainerBase:
     def mk_copy(self, copy_node: bool = False) -> ContainerBase:
         """Make a copy of self."""
         copied = copy.copy(self)
+        # copy.copy also hands over the storage of the observable attributes (node and its observers):
+        # without an own storage, setting copied.node would set self.node and notify the observers of self.
+        copied.__dict__.pop('_property_instance_data', None)
+        copied.node = self.node
         # the copy must not share mutable property values (MetricValue, CoreData, lists, ...) with self,
         # otherwise a change of the copy would change self (and everything else that shares the value).
         for _, prop in self.sorted_container_properties():
